@@ -180,9 +180,11 @@ func (e *env) c23Final(c *cconn) {
 		simrt.Failf("malformed-reply", "truncated message", "connection %d: the server's stream ends inside a message: %x; script: %s", c.id, head(c.srvOut, 64), c.desc)
 	}
 	// An unsupported command / address type must be answered, provided the server
-	// got the request in good time and was the one to end the connection.
+	// was the one to end the connection and had the whole request well before the
+	// connection's idle timeout (a server may drop a connection that took longer).
 	req, ok := e.requestOf(c)
-	if !ok || !strictReq(req) || p.reply != nil || !c.rdEOF || c.longPause {
+	inTime := !c.longPause && c.lastSent.Sub(c.opened) < e.idle-100*time.Millisecond
+	if !ok || !strictReq(req) || p.reply != nil || !c.rdEOF || !inTime {
 		return
 	}
 	unsupported := e.cmdClass(req.cmd) == "unsupported"
